@@ -32,6 +32,28 @@ def modules_of(text):
     return [it.name for it in items if it.kind == 'mod']
 
 
+def module_constants(rt, normalization):
+    """generate two operations whose names are not UpperCamelCase and read OPERATION_NAME / QUERY back from the modules"""
+    doc = 'query echo_message { x }\nquery mountainHeight { x }\n'
+    r = rt.gen(SCHEMA, doc, {'mode': 'cli', 'normalization': normalization})
+    if r['status'] != 'ok':
+        return f'generation failed: {r["text"][:200]}'
+    items = native.parse_generated(r['text'])
+    got = {}
+    for it in items:
+        if it.kind == 'mod':
+            consts = {x.name: ''.join(x.rhs) for x in it.items if x.kind == 'const'}
+            got[it.name] = consts
+    problems = []
+    for op in ('echo_message', 'mountainHeight'):
+        hit = [m for m, cs in got.items() if cs.get('OPERATION_NAME') == json.dumps(op)]
+        if len(hit) != 1:
+            problems.append(f'no module has OPERATION_NAME == "{op}" under normalization {normalization}: {[cs.get("OPERATION_NAME") for cs in got.values()]}')
+        elif json.loads(got[hit[0]].get('QUERY', '""')) != doc:
+            problems.append(f'QUERY of module {hit[0]} is not the document text')
+    return '; '.join(problems)
+
+
 def main():
     t0 = time.time()
     tier = vc.tier()
@@ -77,7 +99,12 @@ def main():
                 seen.add(c['kernel'])
         else:
             seen.add(c['kernel'])
-            out.inconc(f'generated-module counterexample needs the native body check below to confirm: {c}')
+            bad = module_constants(rt, c.get('normalization', 'None').lower())
+            replayed += 1
+            if bad:
+                out.violation('module-constants', f"{c['what']}: {bad}", dict(kind='solver', model=c, detail=bad))
+            else:
+                out.inconc(f'generated-module counterexample did not reproduce natively: {c}')
     # native body check
     C = consumer.Consumer(sc)
     err = C.build(SCHEMA, DOC, 'First', 'first')
@@ -94,6 +121,11 @@ def main():
             native_ok = sorted(body) == ['operationName', 'query', 'variables'] and body['query'] == DOC and body['operationName'] == 'First' and body['variables'] == {'a': 1, 's': None}
             if not native_ok:
                 out.violation('native:body', f'request body is {json.dumps(body)[:400]}; expected members operationName=First, query=<file bytes>, variables', dict(kind='native', body=body, document=DOC))
+    for nz in ('none', 'rust'):
+        bad = module_constants(rt, nz)
+        replayed += 1
+        if bad and 'module-constants' not in [v[0] for v in out.violations]:
+            out.violation('native:module-constants', bad, dict(kind='native', normalization=nz))
     # derive mode on a struct name that matches nothing: must fail and name the operations
     r = rt.gen(SCHEMA, DOC, {'mode': 'derive', 'operation_name': 'Third', 'struct_ident': 'Third'})
     replayed += 1
